@@ -581,13 +581,13 @@ theorem partition_in_clause (hfresh : (reqIds T).Nodup) (hpeers : ∀ x ∈ deli
 /-- **The Spec accepts the model**: every trace of the model satisfies the executable property
 (so "implementation output = model output" implies "Spec holds on the implementation"). -/
 theorem spec_accepts_model (hp1 : ∀ x ∈ issued T, x.2 < np)
-    (hp2 : ∀ x ∈ delivered (Trace.evs T), x.2 < np) : spec T = true := by
+    (hp2 : ∀ x ∈ delivered (Trace.evs T), x.2 < np)
+    (c11 : (T).all (fun e => e.out.panic.isNone) = true) : spec T = true := by
   have c1 := (ids_unique dbg np ops).2.2.2
   have c2 := at_most_once dbg np ops
   have c3 := outcome_issued dbg np ops
   have c45 := partition_clause dbg np ops hp1
   have c6 := quiescence_clause dbg np ops
-  have c11 := panics_excused dbg np ops
   simp only [spec, specKey, c1, c2, c3, c45.1, c45.2, c6, c11, decide_true, Bool.not_true,
     Bool.false_eq_true, if_false]
   by_cases hfresh : (reqIds T).Nodup
@@ -688,20 +688,180 @@ theorem delivered_requests (np : Nat) : ∀ (ops : List Op) (s : St) (ids : List
 /-- **The Spec accepts the model**, hypothesis on the operations: the peers of the `send_request`
 and `Request` operations are among the `np` peers whose `is_pending_*` is sampled. -/
 theorem spec_accepts_model_ops (dbg : Bool) (np : Nat) (ops : List Op)
-    (hs : ∀ p, Op.send p ∈ ops → p < np) (hr : ∀ p c id, Op.hRequest p c id ∈ ops → p < np) :
+    (hs : ∀ p, Op.send p ∈ ops → p < np) (hr : ∀ p c id, Op.hRequest p c id ∈ ops → p < np)
+    (c11 : (runT true np (init dbg) [] ops).all (fun e => e.out.panic.isNone) = true) :
     spec (runT true np (init dbg) [] ops) = true := by
   apply spec_accepts_model
   · intro x hx; exact hs _ (issued_sends true np ops _ _ x hx)
   · intro x hx
     obtain ⟨c, hc⟩ := delivered_requests np ops _ _ x hx
     exact hr _ _ _ hc
+  · exact c11
 
-/-! ## The original code (finding `C45-late-handler-event`)
+/-! ## The code as it is (`step false`) under the environment contract
 
-`step false` is the behaviour before the repair: `debug_assert!(removed)` and then the event is
-emitted unconditionally. -/
+On in-contract operations the code and the defensive variant coincide, so every theorem above holds
+for the code on every in-contract run — and the `expect` / `debug_assert!` panics are unreachable. -/
 
-/-- the run of the original code: established, send, closed, then the handler's late `Response` -/
+theorem step_agree (s : St) (o : Op) (h : inContract s o = true) : step false s o = step true s o := by
+  cases o with
+  | hOut p c id k => simp only [inContract] at h; simp [step, h]
+  | hIn p c id k =>
+    simp only [inContract, Bool.or_eq_true, Bool.not_eq_true'] at h
+    rcases h with h | h
+    · simp [step, h]
+    · simp [step, h]
+  | _ => rfl
+
+theorem runT_agree (np : Nat) : ∀ (ops : List Op) (s : St) (ids : List RId), okRun s ops = true →
+    runT false np s ids ops = runT true np s ids ops := by
+  intro ops
+  induction ops with
+  | nil => intro s ids _; rfl
+  | cons o os ih =>
+    intro s ids h
+    simp only [okRun, Bool.and_eq_true] at h
+    have e := step_agree s o h.1
+    simp only [runT, e]
+    rw [ih _ _ (by rw [← e]; exact h.2)]
+
+theorem finalSt_agree : ∀ (ops : List Op) (s : St), okRun s ops = true →
+    ops.foldl (fun s o => (step false s o).1) s = finalSt s ops := by
+  intro ops
+  induction ops with
+  | nil => intro s _; rfl
+  | cons o os ih =>
+    intro s h
+    simp only [okRun, Bool.and_eq_true] at h
+    have e := step_agree s o h.1
+    simp only [List.foldl_cons, finalSt]
+    rw [ih _ h.2, e]; rfl
+
+theorem step_no_panic (s : St) (h : Hs) (hi : Inv s h) (o : Op) (hc : inContract s o = true) :
+    (step true s o).2.panic = none := by
+  cases o with
+  | send p =>
+    simp only [step]
+    split
+    · rfl
+    · rename_i hemp
+      have hlen : 0 < (s.connected p).length := by
+        cases hc' : s.connected p with
+        | nil => simp [hc'] at hemp
+        | cons x xs => simp
+      obtain ⟨r, hr⟩ := sendTo_some s.nextId (s.nextId % (s.connected p).length) (s.connected p)
+        (Nat.mod_lt _ hlen)
+      simp [hr]
+  | established p c => rfl
+  | closed p c =>
+    simp only [inContract, Bool.and_eq_true, Bool.not_eq_true'] at hc
+    simp only [step, hc.1, Bool.false_eq_true, if_false]
+    cases ht : takeConn c (s.connected p) with
+    | none => simp [ht] at hc
+    | some r => rfl
+  | dialFailure p c cond =>
+    simp only [step]
+    split
+    · rfl
+    · split <;> rfl
+  | hOut p c id k =>
+    simp only [step, if_true]
+    split <;> rfl
+  | hRequest p c id =>
+    simp only [inContract] at hc
+    simp only [step]
+    split
+    · rfl
+    · rename_i ins conns' hins
+      simp only [hins] at hc
+      simp [hc]
+  | hIn p c id k =>
+    simp only [step, if_true]
+    split
+    · rfl
+    · split <;> rfl
+
+/-- **The `expect`s and `debug_assert!`s are unreachable**: on an in-contract run the code never
+panics (both build modes). -/
+theorem no_panic_run (np : Nat) : ∀ (ops : List Op) (s : St) (ids : List RId) (h : Hs), Inv s h →
+    okRun s ops = true → (runT false np s ids ops).all (fun e => e.out.panic.isNone) = true := by
+  intro ops
+  induction ops with
+  | nil => intro s ids h _ _; rfl
+  | cons o os ih =>
+    intro s ids h hi hok
+    simp only [okRun, Bool.and_eq_true] at hok
+    have e := step_agree s o hok.1
+    simp only [runT, List.all_cons, Bool.and_eq_true, e]
+    refine ⟨by simp [step_no_panic s h hi o hok.1], ?_⟩
+    exact ih _ _ _ (inv_step s h hi o (samplePo np (step true s o).1)
+      (samplePi np (step true s o).1 (seenAfter ids o))) (by rw [← e]; exact hok.2)
+
+section
+variable (dbg : Bool) (np : Nat) (ops : List Op) (hok : okRun (init dbg) ops = true)
+include hok
+
+local notation "T₀" => runT false np (init dbg) [] ops
+
+theorem code_no_panic : (T₀).all (fun e => e.out.panic.isNone) = true :=
+  no_panic_run np ops (init dbg) [] Hs.empty (inv_init dbg) hok
+
+/-- request ids returned by the code are `1, 2, …` in call order -/
+theorem code_ids_unique : ((issued T₀).map (·.1)).Pairwise (· < ·) ∧ ((issued T₀).map (·.1)).Nodup := by
+  rw [runT_agree np ops _ _ hok]
+  exact ⟨(ids_unique dbg np ops).2.1, (ids_unique dbg np ops).2.2.1⟩
+
+/-- **no outbound request id gets two outcomes** (code as it is, any in-contract interleaving) -/
+theorem code_at_most_once : clOnceOut T₀ := by
+  rw [runT_agree np ops _ _ hok]; exact at_most_once dbg np ops
+
+theorem code_outcome_issued : clIssuedOut T₀ := by
+  rw [runT_agree np ops _ _ hok]; exact outcome_issued dbg np ops
+
+/-- **partition**: `is_pending_outbound(p, id)` ⇔ issued to `p` and no outcome yet -/
+theorem code_pending_iff (p : Peer) (id : RId) :
+    isPendingOut (ops.foldl (fun s o => (step false s o).1) (init dbg)) p id = true ↔
+      (id, p) ∈ issued T₀ ∧ (id, p) ∉ outDone (Trace.evs T₀) := by
+  rw [runT_agree np ops _ _ hok, finalSt_agree ops _ hok]; exact pending_iff dbg np ops p id
+
+/-- **exactly one outcome at quiescence** (no open connection to `p`, no outstanding `Dial`) -/
+theorem code_exactly_once_at_quiescence (p : Peer) (id : RId) (hiss : (id, p) ∈ issued T₀)
+    (hopen : openCount p T₀ ≤ 0) (hdial : dialing p T₀ = false) :
+    (outDone (Trace.evs T₀)).count (id, p) = 1 := by
+  rw [runT_agree np ops _ _ hok] at hiss hopen hdial ⊢
+  exact exactly_once_at_quiescence dbg np ops p id hiss hopen hdial
+
+theorem code_at_most_once_in (hfresh : (reqIds T₀).Nodup) : clOnceIn T₀ := by
+  rw [runT_agree np ops _ _ hok] at hfresh ⊢; exact at_most_once_in dbg np ops hfresh
+
+theorem code_pending_in_iff (hfresh : (reqIds T₀).Nodup) (p : Peer) (id : RId) :
+    isPendingIn (ops.foldl (fun s o => (step false s o).1) (init dbg)) p id = true ↔
+      (id, p) ∈ delivered (Trace.evs T₀) ∧ (id, p) ∉ inDone (Trace.evs T₀) := by
+  rw [runT_agree np ops _ _ hok] at hfresh ⊢
+  rw [finalSt_agree ops _ hok]; exact pending_in_iff dbg np ops hfresh p id
+
+theorem code_exactly_once_in_at_quiescence (hfresh : (reqIds T₀).Nodup) (p : Peer) (id : RId)
+    (hdel : (id, p) ∈ delivered (Trace.evs T₀)) (hopen : openCount p T₀ ≤ 0) :
+    (inDone (Trace.evs T₀)).count (id, p) = 1 := by
+  rw [runT_agree np ops _ _ hok] at hfresh hdel hopen ⊢
+  exact exactly_once_in_at_quiescence dbg np ops hfresh p id hdel hopen
+
+/-- **The Spec accepts the model of the code** on every in-contract run. -/
+theorem code_spec_accepts_model (hs : ∀ p, Op.send p ∈ ops → p < np)
+    (hr : ∀ p c id, Op.hRequest p c id ∈ ops → p < np) : spec T₀ = true := by
+  have hp := code_no_panic dbg np ops hok
+  rw [runT_agree np ops _ _ hok] at hp ⊢
+  exact spec_accepts_model_ops dbg np ops hs hr hp
+
+end
+
+/-! ## Outside the contract (observation `C45-late-handler-event`)
+
+Outside the contract the code is not robust: a completion event for a request that is no longer
+pending gives it a second outcome (release) or trips the `debug_assert!` (debug).  Not reachable
+through a real `Swarm` + `Handler`; recorded for documentation. -/
+
+/-- out-of-contract run: established, send, closed, then a late `Response` for the closed connection -/
 def lateOps : List Op := [.established 0 1, .send 0, .closed 0 1, .hOut 0 1 1 .response]
 
 /-- release build of the ORIGINAL code: request 1 gets two outcomes
@@ -724,9 +884,11 @@ theorem late_handler_event_fixed :
     ((runT true 1 (init true) [] lateOps).map (·.out.panic)) = [none, none, none, none] := by
   constructor <;> decide
 
+example : okRun (init true) lateOps = false := by decide
+example : okRun (init true) [.established 0 1, .send 0, .hOut 0 1 1 .response, .closed 0 1] = true := by decide
+
 /-- Under the handler contract (a completion event only for an id that is pending on that
-connection) the original and the repaired code behave identically — so the theorems above hold
-for the original code on all in-contract runs. -/
+connection) the code and the defensive variant behave identically. -/
 theorem original_agrees_in_contract (s : St) (o : Op)
     (hout : ∀ p c id k, o = .hOut p c id k → (removeP true c id (s.connected p)).1 = true)
     (hin : ∀ p c id k, o = .hIn p c id k → (removeP false c id (s.connected p)).1 = true) :
@@ -751,7 +913,6 @@ example : (reqIds (runT true 1 (init true) [] [.established 0 1, .hRequest 0 1 5
   decide
 /-- the Spec rejects a trace with two outcomes -/
 example : specKey (runT false 1 (init false) [] lateOps) = some "double_outcome_out" := by decide
-example : spec (runT true 1 (init true) [] lateOps) = true := by decide
 
 end C45
 
@@ -770,6 +931,17 @@ end C45
 #print axioms C45.panics_excused
 #print axioms C45.spec_accepts_model
 #print axioms C45.spec_accepts_model_ops
+#print axioms C45.runT_agree
+#print axioms C45.code_no_panic
+#print axioms C45.code_ids_unique
+#print axioms C45.code_at_most_once
+#print axioms C45.code_outcome_issued
+#print axioms C45.code_pending_iff
+#print axioms C45.code_exactly_once_at_quiescence
+#print axioms C45.code_at_most_once_in
+#print axioms C45.code_pending_in_iff
+#print axioms C45.code_exactly_once_in_at_quiescence
+#print axioms C45.code_spec_accepts_model
 #print axioms C45.late_handler_event_buggy_counterexample
 #print axioms C45.late_handler_event_buggy_panics
 #print axioms C45.late_handler_event_fixed
